@@ -61,7 +61,7 @@ def run(ctx):
             if b["check"] in seen:
                 continue
             seen.add(b["check"])
-            ctx.violation(b["check"], {"trace_line": b["line"]}, {"kind": "trace", "trace": kept, "line": b["line"], "module": "ScoreTrace"})
+            ctx.violation(b["check"], {"trace_line": b["line"]}, {"kind": "trace", "record_args": [str(a) for a in h["args"]], "trace": kept, "line": b["line"], "module": "ScoreTrace"})
     pairs = h["summary"]["counts"]["pairs"]
     ctx.cov["evaluations"] += pairs
     ctx.cov["distinct_nontrivial"] += pairs
